@@ -16,7 +16,7 @@ Local Open Scope string_scope.
 Theorem C01_session_rejects_bad :
   forall cfg s id cr bid ex,
     (forall b, cr = Bearer b ->
-       ~ good_bearer (clock s) (cfg_host cfg) b \/ c_topic (b_claims b) <> id \/
+       ~ good_bearer (clock s) (cfg_host cfg) (cfg_secret cfg) b \/ c_topic (b_claims b) <> id \/
        (c_booking (b_claims b) = 0%N /\ cfg_allow_empty cfg = false) \/ denied s (c_booking (b_claims b)) = true) ->
     refusal (snd (handle true cfg s (mkreq (RSession id) cr bid ex))) /\
     fst (handle true cfg s (mkreq (RSession id) cr bid ex)) = s.
@@ -97,12 +97,83 @@ Theorem C01_plain_topic_roundtrip :
 Proof. exact plain_topic_roundtrip. Qed.
 Print Assumptions C01_plain_topic_roundtrip.
 
+(* "HMAC-signed with the relay's secret": the authenticator lets a bearer through only if the key its signature
+   was made with IS the configured secret, as one string - whatever the configuration looks like (commas, spaces,
+   4 KB, non-ASCII) and whatever the header says.  HMAC itself is modelled as "verifies exactly under the key it
+   was made with"; keys are interned by the harness *)
+Theorem C01_only_the_configured_secret :
+  forall now host secret cr c,
+    validate_header now host secret cr = Principal c -> exists b, cr = Bearer b /\ b_signed b = Some secret.
+Proof. exact principal_signed_with_secret. Qed.
+Print Assumptions C01_only_the_configured_secret.
+
+(* ... so a bearer signed with any other key (the empty key, a part, a prefix, the trimmed secret, a longer key) or
+   with no HMAC at all is refused on every route, and nothing changes *)
+Theorem C01_wrong_key_refused :
+  forall cfg s r b,
+    r_cred r = Bearer b -> b_signed b <> Some (cfg_secret cfg) ->
+    refusal (snd (handle true cfg s r)) /\ fst (handle true cfg s r) = s.
+Proof. exact wrong_key_refused. Qed.
+Print Assumptions C01_wrong_key_refused.
+
+(* the further JOSE header members (kid, jku, x5u, x5c, jwk, cty, crit, unknown ones) change no answer and no state *)
+Theorem C01_header_irrelevant :
+  forall cfg s rt b h bid ex,
+    handle true cfg s (mkreq rt (Bearer (set_header b h)) bid ex) = handle true cfg s (mkreq rt (Bearer b) bid ex).
+Proof. exact header_irrelevant. Qed.
+Print Assumptions C01_header_irrelevant.
+
+(* "any other token is answered with an error status and NO CODE": a code appears in an answer only with status 200 *)
+Theorem C01_code_only_on_success :
+  forall cfg s r st k, snd (handle true cfg s r) = Resp st (BUri k) -> st = 200%N.
+Proof. exact uri_only_on_success. Qed.
+Print Assumptions C01_code_only_on_success.
+
+(* what admission demands at that moment: the code is live, its store lifetime has not run out, the token is inside
+   its window, addressed to the relay, its booking not denied, and it carries read or write; the member gets exactly
+   the can-read / can-write the scopes say *)
+Theorem C01_join_requires :
+  forall cfg s path code ua m,
+    snd (ws_accept cfg s path code ua) = WJoined m ->
+    exists k e, code = Some k /\ joined_by cfg s path k ua e m.
+Proof. exact join_requires. Qed.
+Print Assumptions C01_join_requires.
+
+(* ... and conversely an expired code, an expired or not-yet-valid token, a denied booking, a foreign audience or
+   scopes with neither read nor write never join *)
+Theorem C01_unfit_code_never_joins :
+  forall cfg s path k ua e,
+    lookup N.eqb k (codes s) = Some e ->
+    (e_store_exp e < clock s)%Z \/ (e_exp e < clock s)%Z \/ (clock s < e_nbf e)%Z \/ denied s (e_booking e) = true \/
+    e_aud e <> cfg_audience cfg \/ (str_mem "read" (e_scopes e) = false /\ str_mem "write" (e_scopes e) = false) ->
+    (snd (ws_accept cfg s path (Some k) ua) = WNotFound \/ snd (ws_accept cfg s path (Some k) ua) = WRefused) /\
+    hub (fst (ws_accept cfg s path (Some k) ua)) = hub s.
+Proof. exact ws_unfit_refused. Qed.
+Print Assumptions C01_unfit_code_never_joins.
+
+(* "bound to that token's ... expiry": the expiry a member carries is, through every history, the exp of the good
+   bearer its code was minted for; and once the relay's due expiry timers have fired (serveWs arms exp - now whole
+   seconds from the connect instant) nobody whose token expired more than a second ago is still a member.  That the
+   real timers do fire is observed by the harness (clause connection-outlived-token) and C06's subject *)
+Theorem C01_member_expiry_is_the_tokens :
+  forall cfg t ops m,
+    In m (hub (reach cfg t ops)) ->
+    exists ops1 r ops2 b, ops = (ops1 ++ OReq r :: ops2)%list /\ r_cred r = Bearer b /\ c_exp (b_claims b) = Some (m_exp m) /\
+                          good_bearer (clock (reach cfg t ops1)) (cfg_host cfg) (cfg_secret cfg) b.
+Proof. exact member_expiry_is_the_tokens. Qed.
+Print Assumptions C01_member_expiry_is_the_tokens.
+
+Theorem C01_expired_members_leave :
+  forall cfg s m, In m (hub (fst (step cfg s OTimers))) -> In m (hub s) /\ (clock s <= m_exp m + 1)%Z.
+Proof. exact timers_end_expired. Qed.
+Print Assumptions C01_expired_members_leave.
+
 (* non-vacuity: good bearer -> code 0 -> join on /session/t (and via the alias path "session/t/"); the same code
    again, another topic's path, no code and a non-session prefix are refused; a token whose exp equals the
    clock is refused by the session endpoint *)
-Definition c01_cfg : config := mkconfig false "h" "w" "w" 30.
+Definition c01_cfg : config := mkconfig false "h" "w" "w" 30 7.
 Definition c01_tok (topic : string) (e : Z) : credential :=
-  Bearer (mkbearer SWell HS256 true (mkclaims topic "session" 1 ["read"; "write"] ["x"; "h"] (Some e) (Some 5%Z) (Some 5%Z))).
+  Bearer (mkbearer SWell HS256 [] (Some 7%N) (mkclaims topic "session" 1 ["read"; "write"] ["x"; "h"] (Some e) (Some 5%Z) (Some 5%Z))).
 Definition c01_hist : list op :=
   [OReq (mkreq (RSession "t") (c01_tok "t" 50) None None);
    OReq (mkreq (RSession "u") (c01_tok "u" 50) None None);
@@ -120,10 +191,32 @@ Example C01_witness :
      OutWs (WJoined (mkmember 0 "t" ["read"; "write"] 1 50 true true 7));
      OutWs WRefused; OutWs WRefused; OutWs WRefused; OutWs WNotFound; OutUnit; OutResp (Resp 500 BError)] /\
   length (hub (reach c01_cfg 10 c01_hist)) = 1%nat /\
-  good_bearer 10 "h" (mkbearer SWell HS256 true (mkclaims "t" "session" 1 ["read"; "write"] ["x"; "h"] (Some 50%Z) (Some 5%Z) (Some 5%Z))).
+  good_bearer 10 "h" 7 (mkbearer SWell HS256 [] (Some 7%N) (mkclaims "t" "session" 1 ["read"; "write"] ["x"; "h"] (Some 50%Z) (Some 5%Z) (Some 5%Z))).
 Proof.
   split; [vm_compute; reflexivity|]. split; [vm_compute; reflexivity|].
   unfold good_bearer; cbn. do 3 (split; [reflexivity|]).
   split; [exists 50%Z, 5%Z, 5%Z; repeat split; try reflexivity; lia|].
   split; [right; left; reflexivity|]. repeat split; discriminate.
 Qed.
+
+(* non-vacuity of the key / header / admission theorems: the same good token signed with key 8 instead of the
+   configured 7 is answered 500 whatever its header lists; with key 7 and a header full of key hints it is answered
+   200; a token with scopes [host] gets a code that never joins; a code presented after its store lifetime never joins *)
+Example C01_witness_keys :
+  let tok k h sc := Bearer (mkbearer SWell HS256 h (Some k) (mkclaims "t" "session" 1 sc ["h"] (Some 500%Z) (Some 5%Z) (Some 5%Z))) in
+  snd (handle true c01_cfg (init 10) (mkreq (RSession "t") (tok 8%N ["kid"] ["read"]) None None)) = Resp 500 BError /\
+  snd (handle true c01_cfg (init 10) (mkreq (RSession "t") (tok 7%N ["kid"; "jku"; "jwk"] ["read"]) None None)) = Resp 200 (BUri 0) /\
+  snd (run c01_cfg (init 10) [OReq (mkreq (RSession "t") (tok 7%N [] ["host"]) None None); OWs "/session/t" (Some 0%N) 1])
+    = [OutResp (Resp 200 (BUri 0)); OutWs WRefused] /\
+  snd (run c01_cfg (init 10) [OReq (mkreq (RSession "t") (tok 7%N [] ["read"]) None None); OSetNow 41; OWs "/session/t" (Some 0%N) 1])
+    = [OutResp (Resp 200 (BUri 0)); OutUnit; OutWs WRefused] /\
+  snd (run c01_cfg (init 10) [OReq (mkreq (RSession "t") (tok 7%N [] ["read"]) None None); OSetNow 40; OWs "/session/t" (Some 0%N) 1])
+    = [OutResp (Resp 200 (BUri 0)); OutUnit; OutWs (WJoined (mkmember 0 "t" ["read"] 1 500 true false 1))].
+Proof. vm_compute. repeat split; reflexivity. Qed.
+
+(* non-vacuity: a member with exp 12 is still there when the timers fire at clock 13 and gone at clock 14 *)
+Example C01_witness_expiry :
+  let tok := Bearer (mkbearer SWell HS256 [] (Some 7%N) (mkclaims "t" "session" 1 ["read"] ["h"] (Some 12%Z) (Some 5%Z) (Some 5%Z))) in
+  let h t := [OReq (mkreq (RSession "t") tok None None); OWs "/session/t" (Some 0%N) 1; OSetNow t; OTimers] in
+  length (hub (reach c01_cfg 10 (h 13%Z))) = 1%nat /\ length (hub (reach c01_cfg 10 (h 14%Z))) = 0%nat.
+Proof. vm_compute. split; reflexivity. Qed.
